@@ -56,9 +56,11 @@ class IDGenerator:
         self._id = start
 
     def ensure_id(self, fn_t: ContractFunctionT) -> None:
+        # step past ids assigned by an earlier code generation of the same
+        # module (see vyper/codegen/module.py:IDGenerator)
         if fn_t._function_id is None:
             fn_t._function_id = self._id
-            self._id += 1
+        self._id = max(self._id, fn_t._function_id + 1)
 
 
 def _is_constructor(func_ast) -> bool:
